@@ -516,6 +516,82 @@ fn de_case<T: for<'a> Deserialize<'a> + PartialEq + fmt::Debug>(g: &mut Grid, tn
     }
 }
 
+/// `Deserialize::deserialize_in_place` on a handle that already holds a value (possibly shared):
+/// success leaves a fresh sole owner of the new value and the sibling untouched; failure leaves the
+/// place exactly as it was; nothing leaks and nothing is destroyed twice.
+fn inplace_case<T: for<'a> Deserialize<'a> + PartialEq + fmt::Debug + Clone>(g: &mut Grid, tname: &str, input: &V, old: &T) {
+    let probe = De { v: input.clone(), calls: Default::default(), fail_at: 0 };
+    let _ = T::deserialize(probe.clone());
+    let calls = *probe.calls.borrow();
+    for k in 0..=calls + 1 {
+        let mk = || De { v: input.clone(), calls: Default::default(), fail_at: k };
+        let want: Result<T, SErr> = suspend(|| T::deserialize(mk()));
+        for (kind, shared) in [("Arc<T>", false), ("Arc<T>", true), ("UniqueArc<T>", false)] {
+            let case = format!("deserialize_in_place {} ({}) from {:?} failing at callback {}", kind, if shared { "place shared with a sibling" } else { "sole owner" }, input, k);
+            vrt::begin_execution();
+            g.case(format!("inplace|{}|{}|{}|{}", tname, kind, shared, want.is_ok()), || case.clone());
+            if kind == "Arc<T>" {
+                let mut place = cap(|| Arc::new(old.clone()));
+                let sibling = if shared { Some(cap(|| place.clone())) } else { None };
+                let blk = place.heap_ptr() as usize;
+                let d = suspend(mk);
+                let r: Result<(), SErr> = cap(|| Deserialize::deserialize_in_place(d, &mut place));
+                match (&r, &want) {
+                    (Ok(()), Ok(v)) => {
+                        if *place != *v || Arc::count(&place) != 1 {
+                            g.fail("inplace-result:Arc<T>", &case, format!("place holds {:?} with count {}, expected a sole owner of {:?}", *place, Arc::count(&place), v));
+                        }
+                        if let Some(s) = &sibling {
+                            if **s != *old || Arc::count(s) != 1 || s.heap_ptr() as usize != blk || place.heap_ptr() as usize == blk {
+                                g.fail("inplace-sibling:Arc<T>", &case, format!("the sibling of the old value now reads {:?} with count {} (place and sibling share a block: {})", **s, Arc::count(s), place.heap_ptr() == s.heap_ptr()));
+                            }
+                        }
+                    }
+                    (Err(e), Err(w)) => {
+                        if e != w {
+                            g.fail("inplace-error:Arc<T>", &case, format!("error {:?}, the value's own deserializer reports {:?}", e, w));
+                        }
+                        if *place != *old || place.heap_ptr() as usize != blk || Arc::count(&place) != 1 + shared as usize {
+                            g.fail("inplace-failed-place-changed:Arc<T>", &case, format!("after the failed call the place reads {:?} (count {}), it held {:?}", *place, Arc::count(&place), old));
+                        }
+                        if let Some(s) = &sibling {
+                            if **s != *old {
+                                g.fail("inplace-sibling:Arc<T>", &case, format!("a failed in-place deserialisation changed the sibling's value to {:?}", **s));
+                            }
+                        }
+                    }
+                    (a, b) => g.fail("inplace-verdict:Arc<T>", &case, format!("handle: {}, value: {}", if a.is_ok() { "Ok" } else { "Err" }, if b.is_ok() { "Ok" } else { "Err" })),
+                }
+                cap(|| drop((r, place, sibling)));
+            } else {
+                let mut place = cap(|| UniqueArc::new(old.clone()));
+                let d = suspend(mk);
+                let r: Result<(), SErr> = cap(|| Deserialize::deserialize_in_place(d, &mut place));
+                match (&r, &want) {
+                    (Ok(()), Ok(v)) => {
+                        if *place != *v {
+                            g.fail("inplace-result:UniqueArc<T>", &case, format!("place holds {:?}, expected {:?}", *place, v));
+                        }
+                    }
+                    (Err(e), Err(w)) => {
+                        if e != w {
+                            g.fail("inplace-error:UniqueArc<T>", &case, format!("error {:?} vs {:?}", e, w));
+                        }
+                        if *place != *old {
+                            g.fail("inplace-failed-place-changed:UniqueArc<T>", &case, format!("after the failed call the place reads {:?}, it held {:?}", *place, old));
+                        }
+                    }
+                    (a, b) => g.fail("inplace-verdict:UniqueArc<T>", &case, format!("handle: {}, value: {}", if a.is_ok() { "Ok" } else { "Err" }, if b.is_ok() { "Ok" } else { "Err" })),
+                }
+                cap(|| drop((r, place)));
+            }
+            if !arena::live_blocks().is_empty() || arena::n_errors() != 0 {
+                g.fail("inplace-release", &case, format!("after dropping everything: live {:?} allocator errors {:?}", arena::live_blocks(), arena::errors_since(0)));
+            }
+        }
+    }
+}
+
 pub fn run(_tier: &str) -> Vec<Grid> {
     let mut g = Grid::new("c17.serialize", "value family (u8, i64, String, (u8,String), Vec<u16> of length 0..3, Option, hand-written struct / enum / newtype+map) x failure injected at each k-th serializer call (k = 0..calls+1); the call log and the result through Arc<T>/UniqueArc<T> must equal those of the value");
     for v in [0u8, 7, 255] {
@@ -564,5 +640,14 @@ pub fn run(_tier: &str) -> Vec<Grid> {
         de_case::<Pt>(&mut d, "Pt(struct)", inp);
         de_case::<En>(&mut d, "En(enum)", inp);
     }
-    vec![g, d]
+    let mut ip = Grid::new("c17.in_place", "Deserialize::deserialize_in_place on Arc<T> (sole owner / shared with a sibling) and UniqueArc<T> x input tree x failure at each k-th callback: Ok leaves a fresh sole owner and the sibling untouched, Err leaves the place as it was, nothing leaks or is destroyed twice");
+    let old_pt = Pt { x: 200, y: "old value kept on the heap".into(), z: vec![1, 2, 3] };
+    for inp in &inputs {
+        inplace_case::<u8>(&mut ip, "u8", inp, &77);
+        inplace_case::<String>(&mut ip, "String", inp, &"old string on the heap".to_string());
+        inplace_case::<Vec<u16>>(&mut ip, "Vec<u16>", inp, &vec![9, 9, 9, 9]);
+        inplace_case::<Pt>(&mut ip, "Pt(struct)", inp, &old_pt);
+        inplace_case::<(u8, String)>(&mut ip, "(u8,String)", inp, &(5, "old".to_string()));
+    }
+    vec![g, d, ip]
 }
